@@ -123,10 +123,12 @@ void arena_check(const void* addr, size_t n, bool is_write) {
     if (s == SH_LIVE) continue;
     const char* what = s == SH_FREED ? "freed" : s == SH_RED ? "red-zone" : s == SH_DEAD ? "dead (completed/destroyed)" : "unallocated";
     Block* b = find_block((void*)(g_arena_base + (g << 3)));
-    char msg[300];
-    snprintf(msg, sizeof msg, "%s of %zu bytes at arena+0x%zx hits %s memory (block #%llu, %u bytes, offset %+ld)",
+    char msg[700], site[400];
+    if (me) ++me->in_rt;
+    library_site(site, sizeof site);
+    snprintf(msg, sizeof msg, "%s of %zu bytes at arena+0x%zx hits %s memory (block #%llu, %u bytes, offset %+ld) site=[%s]",
              is_write ? "write" : "read", n, off, what, b ? (unsigned long long)b->id : 0ull, b ? b->size : 0,
-             b ? (long)(off - b->off) : 0l);
+             b ? (long)(off - b->off) : 0l, site);
     end_run_with_verdict(USIM_V_VIOLATION, s == SH_RED || s == SH_UNALLOC ? "mem.out-of-bounds" : "mem.touch-after-free", msg);
   }
 }
